@@ -1,8 +1,8 @@
 ------------------------------- MODULE Gen_C08 -------------------------------
 EXTENDS ResponseCheck, Json, CSV, SequencesExt
 
-Keys == {"200", "201", "404", "2XX", "4XX", "default"}
-Statuses == {0, 100, 200, 201, 204, 301, 304, 307, 308, 404, 500, 600}
+Keys == {"200", "201", "302", "404", "2XX", "3XX", "4XX", "default"}
+Statuses == {0, 100, 200, 201, 204, 300, 301, 302, 303, 304, 307, 308, 404, 500, 600}
 KeySets == {ks \in SUBSET Keys : Cardinality(ks) >= 1 /\ Cardinality(ks) <= 3}
 
 S(cs) == Str(cs)
@@ -36,6 +36,11 @@ Init ==
         /\ case = [part |-> "def", hd |-> hd, hv |-> hv, decl |-> d, ct |-> ct, req |-> rq,
                    ctText |-> (IF "absent" \in DOMAIN ct THEN "" ELSE Render(ct)), body |-> b,
                    excludeBody |-> xb, excludeWO |-> xw, multi |-> mu]
+   \* the body schema behind a composition keyword or one level down (items, a property)
+   \/ \E w \in {"anyOf", "oneOf", "allOf", "items", "itemsAnyOf", "prop"}, b \in JsonBodies, xw \in BOOLEAN, mu \in BOOLEAN, rq \in {"qw", "qrw"} :
+        case = [part |-> "def", hd |-> "none", hv |-> "absent", decl |-> "json", ct |-> Json, req |-> rq, ctText |-> Render(Json),
+                wrap |-> w, body |-> (CASE w \in {"items", "itemsAnyOf"} -> Arr(<<b>>) [] w = "prop" -> O(<<"in">>, <<b>>) [] OTHER -> b),
+                excludeBody |-> FALSE, excludeWO |-> xw, multi |-> mu]
 Next == UNCHANGED case
 Spec == Init /\ [][Next]_case
 Emit == CSVWrite("%1$s", <<ToJson(case)>>, "cases.ndjson")
